@@ -97,6 +97,11 @@ def gen_tree(rng, size):
         elif pproj and r < 0.5:
             jobk[0] += 1
             add({"t": "job", "par": par, "k": jobk[0], "proj": rng.random() < 0.2}, pd + 1)
+        elif pproj and r < 0.58:
+            # names that merely CONTAIN an id-like run, next to the job directories: a backup copy, a prefixed
+            # name, a 40-hex name, a regular FILE named like an id (none of them is a job directory)
+            jobk[0] += 1
+            add({"t": "wsx", "par": par, "k": jobk[0], "flavour": rng.choice(["bak", "pre", "long", "file", "bakfile"])}, pd + 1)
         elif r < 0.72:
             add({"t": "dir", "par": par, "name": fresh_name(par)}, pd + 1)
         elif r < 0.9:
@@ -108,7 +113,7 @@ def gen_tree(rng, size):
     # project flavours
     for i, n in enumerate(nodes):
         if _projlike(n):
-            has_jobs = any(m["t"] in ("job", "joblink") and m["par"] == i for m in nodes)
+            has_jobs = any(m["t"] in ("job", "joblink", "wsx") and m["par"] == i for m in nodes)
             r = rng.random()
             if not has_jobs and r < 0.12:
                 n["nows"] = True
@@ -251,6 +256,19 @@ def build(case, R):
             p = os.path.join(base, n["name"])
             with open(p, "w") as f:
                 f.write("data %d\n" % i)
+        elif t == "wsx":
+            jid = job_id(n["k"])
+            name = {"bak": jid + ".bak", "pre": "x" + jid, "long": jid + hashlib.md5(jid.encode()).hexdigest()[:8],
+                    "file": jid, "bakfile": jid + ".json"}[n["flavour"]]
+            p = os.path.join(base, "workspace", name)
+            if n["flavour"] in ("file", "bakfile"):
+                with open(p, "w") as f:
+                    json.dump({"i": n["k"]}, f)
+            else:
+                os.mkdir(p)
+                with open(os.path.join(p, "signac_statepoint.json"), "w") as f:
+                    json.dump({"i": n["k"]}, f)
+                os.mkdir(os.path.join(p, "data"))
         elif t == "joblink":
             p = os.path.join(base, "workspace", job_id(n["k"]))
             os.symlink(paths[n["tgt"]], p)
@@ -457,6 +475,7 @@ def run_case(case, ctx):
         # ---- query targets
         targets = list(dirs)
         targets += rng.sample(files, min(len(files), 3))
+        targets += [f for f in files if IDRE.search(os.path.basename(f)) and f not in targets]
         targets += gone
         fresh_id = hashlib.md5(b"c19-absent").hexdigest()
         for d in rng.sample(dirs, min(len(dirs), 4)):
@@ -544,6 +563,11 @@ def run_case(case, ctx):
                 exp = oracle_project(a, op == "gp1", schema)
             elif op == "gj":
                 exp = oracle_job(a, schema)
+                if res == ("exc", "LookupError") and any(
+                        IDRE.fullmatch(os.path.basename(d_)) and not os.path.isdir(d_) for d_ in prefixes(a)):
+                    # outside the property's layouts (an id-named FILE below a job directory): refusing is fine,
+                    # guessing (a job that is not a directory at or above the path) is not
+                    exp = ("exc", {"LookupError"})
             elif op == "open":
                 exp = oracle_project(a, False, schema) if os.path.exists(a) else ("exc", {"LookupError"})
                 if exp[0] == "exc" and os.path.isfile(os.path.join(a, "signac.rc")):
